@@ -45,7 +45,7 @@ func verifC05HasGoTypeSyntax(s string) bool {
 // Every error value maps to a stable cross-language type name.
 //
 //verif:stub encoding/json.Marshal = verifJSONMarshal
-//verif:bound base error: *RpcError with Type any string of 0..3 bytes and Kind any string of 0..2 bytes; each typed framework error (method-not-implemented, protocol-version, session-lost, draining, external-cap refusal); errors.New; two application-defined error types; the RuntimeError the dispatchers build from a recovered panic; each under 0..2 fmt.Errorf("%w") wrappers; debug on/off. The JSON rendering itself (json.Marshal) is replaced by a recorder of the errorExtra struct.
+//verif:bound base error: *RpcError with Type any string of 0..3 bytes and Kind any string of 0..2 bytes, with or without a Traceback/RequestID of its own (a relayed upstream error); each typed framework error (method-not-implemented, protocol-version, session-lost, draining, external-cap refusal); errors.New; two application-defined error types; the RuntimeError the dispatchers build from a recovered panic; each under 0..2 fmt.Errorf("%w") wrappers; debug on/off. The JSON rendering itself (json.Marshal) is replaced by a recorder of the errorExtra struct.
 func verifH_C05_exception_type() {
 	kind := verifChoice("kind", verifC05NKinds)
 	var base error
@@ -55,6 +55,11 @@ func verifH_C05_exception_type() {
 		tn := verifChoice("type.len", 4)
 		kn := verifChoice("kind.len", 3)
 		e := &RpcError{Type: verifNondetString("type", tn), Message: "m", Kind: verifNondetString("ekind", kn)}
+		if verifNondetBool("carries_traceback") {
+			// e.g. an error decoded from an upstream server that had debug errors on and is being relayed
+			e.Traceback = "upstream stack"
+			e.RequestID = "upstream-rid"
+		}
 		base, wire = e, e.Type
 	case verifC05NotImpl:
 		base, wire = &MethodNotImplementedError{Method: "f"}, "AttributeError"
